@@ -1,4 +1,5 @@
 import Rivaas.Spec.BindBody
+import Rivaas.Spec.BindNestJSON
 import Rivaas.Model.BindAll
 /-
 C04 — oracle for binds that collect their errors (`WithAllErrors`). The statement's clause "a value the
@@ -37,6 +38,15 @@ def specAll (P : Params) (cfg : Cfg) (tag : Tag) (fs : List Fld) (init : Val) (s
       errs.any (fun e => errNames e == l.names)) &&
     ((nodesOf tag fs).all fun n =>
       n.depth != cfg.maxDepth + 1 || errs.any (fun e => errNames e == n.names))
+
+/-- … with the nested-struct JSON shortcut: the collecting oracle on the type with the shortcut fields hidden from
+    the bind and the decoded structs in their place (as `specOKJ`) -/
+def specAllJ (P : Params) (cfg : Cfg) (tag : Tag) (fs : List Fld) (init : Val) (s : Src) (o : ObsAll) : Bool :=
+  let sc := shortcuts P tag fs s
+  if sc.all Option.isNone then specAll P cfg tag fs init s o
+  else match init with
+    | .struct ivs => specAll P cfg tag (hideFs fs sc) (.struct (placeVals ivs sc)) s o
+    | _ => false
 
 def specMultiAll (P : Params) (cfg : Cfg) (fs : List Fld) (init : Val) (srcs : List Src) : ObsAll → Bool
   | .panic => false
